@@ -372,7 +372,7 @@ static void exec_c05(const void *k, res_t *r, const runcfg_t *cfg) {
     if (X.faulted) {
         /* a size above the RSIZE limit must be rejected before dest or src is touched */
         if (X.sig == SIGSEGV && (c->dkind == DK_OVERMAX || ((row->fl & F_SLEN) && c->slen > row->dmax_max * (size_t)row->du / (size_t)row->su))) {
-            RES_VIOL(r, "C05:%s:touched-before-rejecting-oversize:%s", row->name, relclass(c));
+            RES_VIOL(r, "C05:%s:touched-before-rejecting-oversize:%s", row->name, c->dkind == DK_OVERMAX ? "dmax>RSIZE_MAX" : "slen>RSIZE_MAX");
             RES_DETAIL(r, "%s fault at %s%+ld although a size argument exceeds the RSIZE limit", X.fault_write ? "store" : "load", bufname(X.fault_buf), X.fault_off);
         } else res_label(r, "foreign-fault");
         if (X.sig != SIGSEGV) r->fragile = 1;
@@ -425,7 +425,7 @@ static void exec_c05(const void *k, res_t *r, const runcfg_t *cfg) {
         }
         /* a size above the RSIZE limit is rejected before dest is touched */
         if (c->dkind == DK_OVERMAX && !c->dest_null && memcmp(X.dest, X.dest_before, c->dtrue) != 0) {
-            RES_VIOL(r, "C05:%s:dest-written-before-rejecting-oversize:%s%s", row->name, relclass(c), c->dbos ? ":bos-known" : "");
+            RES_VIOL(r, "C05:%s:dest-written-before-rejecting-oversize:%s%s", row->name, "dmax>RSIZE_MAX", c->dbos ? ":bos-known" : "");
             RES_DETAIL(r, "dmax=%zu exceeds the limit %zu but dest was modified", c->dmax, row->dmax_max);
             return;
         }
